@@ -21,10 +21,16 @@ Theorem instances_clean_when_idle_lemma :
     idle s ->
     forall ln k f,
       In ln s -> nth_error (i_fam i) k = Some f -> claim f = true ->
-      nth_error (l_fld ln) k = nth_error (l_fld (reset_lane (i_fam i))) k.
+      (k_junk f = false -> nth_error (l_fld ln) k = nth_error (l_fld (reset_lane (i_fam i))) k) /\
+      (forall j, nth_error (l_fld ln) k <> Some (Data j)).
 Proof.
-  intros i Hin n ops s Hrun Hidle. 
-  exact (ooo_clean_when_idle_lemma (i_fam i) n ops s (instance_family_ok i Hin) Hrun Hidle).
+  intros i Hin n ops s Hrun Hidle ln k f Hl Hf Hcl. split.
+  - intros Hk.
+    exact (ooo_clean_when_idle_lemma (i_fam i) n ops s (instance_family_ok i Hin) Hrun Hidle
+                                     ln k f Hl Hf Hcl Hk).
+  - intros j.
+    exact (ooo_idle_holds_no_job_data_lemma (i_fam i) n ops s (instance_family_ok i Hin) Hrun Hidle
+                                            ln k f j Hl Hf Hcl).
 Qed.
 
 Theorem instances_lane_clean_after_completion_lemma :
